@@ -197,7 +197,7 @@ GLYPHS = {
     "gBad": [("foo", None), ("g123", None), ("uniD800", None), (".notdef", None), ("a12_c9", None)],
     "gErr": [("uni0041XYZW", None), ("u0041g", None), ("uni00zz", None)],
 }
-TARGETS = {"t1": ["Z", "א", "é"], "t2": ["ffi", "\U0001d11e", "x́y"]}
+TARGETS = {"t0": [""], "t1": ["Z", "א", "é"], "t2": ["ffi", "\U0001d11e", "x́y"]}
 STD14 = ["Helvetica", "Times-Roman", "Courier-Bold"]
 FM = {"m001": [0.001, 0, 0, 0.001, 0, 0], "m01": [0.01, 0, 0, 0.01, 0, 0], "skew": [0.001, 0, 0.0005, 0.001, 0, 0]}
 
@@ -271,8 +271,8 @@ def realise_simple(rec, herr_active):
     if tu:
         ents = [(byte(i + 1), tgt[t]) for i, t in enumerate(tu) if t != "none"]
         tf = f.get("tuform", "bfchar")
-        if tf == "range":
-            secs = [("bfrange", [(b, b, t)]) for b, t in ents]
+        if tf == "range":       # (the increment form with an empty target is C07's dev:EmptyIncrementBase: written as bfchar)
+            secs = [("bfrange", [(b, b, t)]) if t else ("bfchar", [(b, t)]) for b, t in ents]
         elif tf == "arrshort":      # declared range of three codes, array of one: only the pair that exists applies
             secs = [("bfrange_arr", [(b, min(b + 2, 255), [t])]) for b, t in ents]
         elif tf == "arrlong":       # one code, array of two: the extra element is ignored
